@@ -1706,6 +1706,195 @@ theorem C01_complex_record_blanks_item {F} (ops : FloatOps F) (lex : LexCfg) (cf
       (fun c hc => cpartCovered_okF _ _ hcri hagg hmc c (by rw [hlk]; exact hcov c hc)) (mkCInst_names d r hknown)
     exact ⟨l', sk', h⟩
 
+/-! ### read ∘ write, the composition principle; instances without values -/
+
+/-- **read ∘ write and write ∘ read ∘ write at file level, the composition principle** (`_partial`): for a manager each of
+    whose instances comes with a record (`it i`: an `Item` with the two record-level facts, severity NULL) that *is* the text
+    `writeInst` emits for it, has the instance's id and part names, and is read back to the instance itself: the data
+    section `STEPfile::WriteData` emits is read back with severity NULL to exactly the instances that were written, every
+    instance complete, and writing what was read gives the same bytes again.  Instances of the fragment of
+    `C01_file_write_read_partial` satisfy this (`storableInst_item`), and so do instances of entities without attributes
+    (`emptyInst_item`). -/
+theorem C01_file_write_read_items_partial {F} (ops : FloatOps F) (lex : LexCfg) (cfg : RWCfg) (d : Dict) (strict : Bool)
+    (hskip : cfg.skipInstanceSkipsComments = true) (m : Mgr F) (hnd : (m.insts.map (·.id)).Nodup) (it : MInst F → Item F)
+    (hid : ∀ i ∈ m.insts, (it i).id = i.id) (hkey : ∀ i ∈ m.insts, keyOf (it i).mkI = keyOf i)
+    (hnull : ∀ i ∈ m.insts, (it i).sev = .null) (hout : ∀ i ∈ m.insts, (it i).out = { i with state := .complete })
+    (htxt : ∀ i ∈ m.insts, ∀ K, 35 :: ((it i).body ++ ((it i).g ++ K)) = writeInst ops cfg d i ++ K)
+    (h1 : ∀ i ∈ m.insts, Item1OK cfg d (it i))
+    (h2 : ∀ i ∈ m.insts, Item2OK ops lex cfg d strict (Mgr.lookup d m) (it i)) :
+    ∃ res, readDataSection ops lex cfg d strict false
+        (10 :: (m.insts.flatMap (writeInst ops cfg d) ++ (stringToBytes "ENDSEC;\n" ++ (endIso ++ [59, 10])))) = .ok res ∧
+      res.sev = .null ∧ exitStatus res.sev = 0 ∧
+      res.mgr.insts = m.insts.map (fun i => { i with state := .complete }) ∧
+      res.mgr.insts.flatMap (writeInst ops cfg d) = m.insts.flatMap (writeInst ops cfg d) := by
+  have hw : ∀ (is : List (MInst F)), (∀ i ∈ is, i ∈ m.insts) → ∀ fin,
+      renderItems (is.map it) fin = is.flatMap (writeInst ops cfg d) ++ fin := by
+    intro is
+    induction is with
+    | nil => intro _ fin; rfl
+    | cons i t ih =>
+      intro hsub fin
+      simp only [List.map_cons, renderItems, List.flatMap_cons, List.append_assoc]
+      rw [ih (fun x hx => hsub x (by simp [hx])) fin, htxt i (hsub i (by simp))]
+  have hfile : (10 : Byte) :: (m.insts.flatMap (writeInst ops cfg d) ++ (stringToBytes "ENDSEC;\n" ++ (endIso ++ [59, 10]))) =
+      [10] ++ renderItems (m.insts.map it) (endsec [] ([10] ++ (endIso ++ 59 :: [10]))) := by
+    have e1 : stringToBytes "ENDSEC;\n" = [69, 78, 68, 83, 69, 67, 59, 10] := by decide
+    rw [hw m.insts (fun _ h => h), e1]
+    simp [endsec]
+  have hkeys : ((m.insts.map it).map (·.mkI)).map keyOf = m.insts.map keyOf := by
+    simp only [List.map_map]
+    apply List.map_congr_left
+    intro i hi
+    exact hkey i hi
+  have hlk : Mgr.lookup d ({ insts := (m.insts.map it).map (·.mkI) } : Mgr F) = Mgr.lookup d m := lookup_congr d _ m hkeys
+  obtain ⟨res, hr, hinsts, hsev, hex, _⟩ := C01_read_items_partial ops lex cfg d strict hskip (m.insts.map it) [10] [] [10] [10]
+    (Seps.blanks _ (by decide)) (by simp) (Seps.blanks _ (by decide))
+    (by
+      have : (m.insts.map it).map (·.id) = m.insts.map (·.id) := by
+        simp only [List.map_map]
+        apply List.map_congr_left
+        intro i hi
+        exact hid i hi
+      rw [this]; exact hnd)
+    (by intro x hx; obtain ⟨i, hi, rfl⟩ := List.mem_map.mp hx; exact hnull i hi)
+    (by intro x hx; obtain ⟨i, hi, rfl⟩ := List.mem_map.mp hx; exact h1 i hi)
+    (by intro x hx; obtain ⟨i, hi, rfl⟩ := List.mem_map.mp hx; rw [hlk]; exact h2 i hi)
+  have hres : res.mgr.insts = m.insts.map (fun i => { i with state := .complete }) := by
+    rw [hinsts, List.map_map]
+    apply List.map_congr_left
+    intro i hi
+    exact hout i hi
+  refine ⟨res, by rw [hfile]; exact hr, hsev, hex, hres, ?_⟩
+  rw [hres, List.flatMap_map]
+  have : (fun i : MInst F => writeInst ops cfg d { i with state := .complete }) = writeInst ops cfg d :=
+    funext (fun i => by simp [writeInst])
+  simp only [Function.comp_def, this]
+
+/-- an instance of the fragment of `C01_file_write_read_partial`, with the record `STEPwrite` emits for it, satisfies the
+    hypotheses of `C01_file_write_read_items_partial` -/
+theorem storableInst_item {F} (ops : FloatOps F) (lex : LexCfg) (cfg : RWCfg) (d : Dict) (strict : Bool)
+    (hskip : cfg.skipInstanceSkipsComments = true) (hcri : lex.criSkipsComments = true) (hagg : cfg.aggrSkipsComments = true)
+    (hmc : cfg.missingCheckEverySecond = false) (hrep : cfg.complexReportsError = true)
+    (hsa : cfg.stringNodeAppends = false) (lk : Lookup) (i : MInst F)
+    (h : StorableInst { ops := ops, lex := lex, cfg := cfg, dict := d, lookup := lk } i) :
+    let x := (AnyRec.simple (recOf ops cfg d i)).item d
+    x.id = i.id ∧ keyOf x.mkI = keyOf i ∧ x.sev = .null ∧ x.out = { i with state := .complete } ∧
+    (∀ K, 35 :: (x.body ++ (x.g ++ K)) = writeInst ops cfg d i ++ K) ∧
+    Item1OK cfg d x ∧ Item2OK ops lex cfg d strict lk x := by
+  intro x
+  let env : Env F := { ops := ops, lex := lex, cfg := cfg, dict := d, lookup := lk }
+  obtain ⟨hlex, hg, hid, ⟨p, e, hparts, hname, hent, habs, hattrs, hvals, hcov⟩, hw⟩ := recOf_spec env cfg hsa i h
+  obtain ⟨_, _, hcx, _⟩ := h
+  have hid : (recOf ops cfg d i).1.id = i.id := hid
+  have hname : (recOf ops cfg d i).1.name = p.name := hname
+  have hvals : (recOf ops cfg d i).1.ps.map (·.v) = p.vals := hvals
+  have hcovd : AnyRecCovered env (.simple (recOf ops cfg d i)) :=
+    ⟨hlex, hg, e, by rw [hname]; exact hent, habs,
+      by rw [hattrs]; exact alignedA_self _ (fun q hq => (covered_rd env strict hcri hagg q (hcov q hq)).1), hcov⟩
+  refine ⟨hid, ?_, rfl, ?_, ?_, anyRec_item1 ops lex cfg d hskip lk _ hcovd,
+    anyRec_item2 ops lex cfg d strict hskip hcri hagg hmc hrep lk _ hcovd⟩
+  · show keyOf (mkInst d (recOf ops cfg d i)) = keyOf i
+    simp [keyOf, mkInst, hid, hname, hparts]
+  · show finInst (recOf ops cfg d i) = { i with state := .complete }
+    cases i with
+    | mk id parts complex state =>
+      simp only at hid hparts hcx hname hvals
+      subst hparts; subst hcx
+      simp [finInst, hid, hname, hvals]
+  · intro K
+    show 35 :: ((recOf ops cfg d i).1.text [] ++ ((recOf ops cfg d i).2 ++ K)) = _
+    rw [rec_text_append]
+    exact hw K
+
+/-- an instance of an entity without attributes as it sits in memory -/
+def EmptyInst {F} (d : Dict) (i : MInst F) : Prop :=
+  0 ≤ i.id ∧ i.id ≤ IStream.intMax ∧ i.complex = false ∧
+  ∃ p e, i.parts = [p] ∧ p.vals = [] ∧ d.entity? p.name = some e ∧ e.abstract = false ∧ e.attrs = [] ∧ KeywordName p.name
+
+/-- the record `STEPwrite` emits for it: `#id=NAME();` -/
+def brecOf {F} (i : MInst F) : BRec :=
+  match i.parts with
+  | p :: _ => { ds := showInt i.id, s1 := [], s2 := [], n0 := (stringToBytes p.name).headD 0, ns := (stringToBytes p.name).tail,
+                s3 := [], body := [41], s4 := [] }
+  | [] => { ds := [], s1 := [], s2 := [], n0 := 0, ns := [], s3 := [], body := [], s4 := [] }
+
+/-- … it satisfies the hypotheses of `C01_file_write_read_items_partial` too -/
+theorem emptyInst_item {F} (ops : FloatOps F) (lex : LexCfg) (cfg : RWCfg) (d : Dict) (strict : Bool)
+    (hskip : cfg.skipInstanceSkipsComments = true) (lk : Lookup) (i : MInst F) (h : EmptyInst d i) :
+    let x := (AnyRecE.empty (F := F) (brecOf i) [10]).item d
+    x.id = i.id ∧ keyOf x.mkI = keyOf i ∧ x.sev = .null ∧ x.out = { i with state := .complete } ∧
+    (∀ K, 35 :: (x.body ++ (x.g ++ K)) = writeInst ops cfg d i ++ K) ∧
+    Item1OK cfg d x ∧ Item2OK ops lex cfg d strict lk x := by
+  intro x
+  obtain ⟨h0, hhi, hcx, p, e, hparts, hvals, hent, habs, hattrs, ⟨n0, ns, hnb, hn0, hns, hback⟩⟩ := h
+  obtain ⟨ds, hds, hne, hdig, hval⟩ := showInt_nonneg i.id h0
+  have hb : brecOf i = { ds := ds, s1 := [], s2 := [], n0 := n0, ns := ns, s3 := [], body := [41], s4 := [] } := by
+    simp [brecOf, hparts, hnb, hds]
+  have hup : upperBytes (n0 :: ns) = n0 :: ns := by
+    unfold upperBytes
+    conv => rhs; rw [← List.map_id (n0 :: ns)]
+    apply List.map_congr_left
+    intro c hc
+    rcases List.mem_cons.mp hc with rfl | hc
+    · exact upper_keeps (by simp [hn0])
+    · exact upper_keeps (List.all_eq_true.mp hns c hc)
+  have hname : (brecOf i).name = p.name := by
+    rw [hb]; show bytesToString (upperBytes (n0 :: ns)) = p.name; rw [hup, hback]
+  have hidb : (brecOf i).id = i.id := by rw [hb]; exact hval
+  have sepsNil : Seps ([] : List Byte) := Seps.blanks [] (by simp)
+  have hl : (brecOf i).Lex := by
+    rw [hb]
+    exact ⟨hne, hdig, by show ((digitsVal ds 0 : Nat) : Int) ≤ _; rw [hval]; exact hhi, sepsNil, sepsNil, sepsNil, sepsNil,
+      by simp [isAlpha, hn0], all_imp (fun c hc => upper_kwc hc) _ hns⟩
+  have hent' : d.entity? (brecOf i).name = some e := by rw [hname]; exact hent
+  have hbody : (brecOf i).body = [] ++ [41] := by rw [hb]; rfl
+  have hg : Seps ([10] : List Byte) := Seps.blanks [10] (by decide)
+  refine ⟨hidb, ?_, rfl, ?_, ?_, ⟨hg, rfl, ?_⟩, ⟨hg, rfl, rfl, rfl, ?_⟩⟩
+  · show keyOf ({ id := (brecOf i).id, parts := [{ name := (brecOf i).name, vals := _ }] } : MInst F) = keyOf i
+    simp [keyOf, hidb, hname, hparts]
+  · show ({ id := (brecOf i).id, parts := [{ name := (brecOf i).name, vals := [] }], state := .complete } : MInst F) = _
+    cases i with
+    | mk id parts complex state =>
+      simp only at hidb hparts hcx hname
+      subst hparts; subst hcx
+      cases p with
+      | mk pn pv =>
+        simp only at hvals hname
+        subst hvals
+        simp [hidb, hname]
+  · intro K
+    show 35 :: ((brecOf i).text [] ++ ([10] ++ K)) = _
+    rw [brec_text_append]
+    have e3 : stringToBytes ");\n" = [41, 59, 10] := by decide
+    have hwa : writeAttrsSimple ops cfg d 0 ([] : List AttrD) p.vals = [] := by simp [writeAttrsSimple]
+    simp [hb, BRec.text, BRec.t1, BRec.t2, BRec.t3, BRec.t4, writeInst, hcx, hparts, hent, hattrs, hnb, hds, e3, hwa]
+  · intro m hnone l c k hc h47 h92
+    have hpass : Passes (brecOf i).body := by
+      rw [hbody]; exact Passes.append (Passes.seps sepsNil) (Passes.plain 41 (by decide))
+    obtain ⟨l', hh⟩ := createInstance_brec cfg hskip d m (brecOf i) hl hpass hnone e hent' habs l [10] hg c k hc h47 h92
+    refine ⟨l', ?_⟩
+    show createInstance cfg d m (G l ((brecOf i).text [] ++ ([10] ++ c :: k)) false) = _
+    rw [brec_text_append, hh]
+    simp [x, AnyRecE.item, hent']
+  · intro st l rest sk hfind hlk hs
+    have hs' : st.s = G l ((brecOf i).text rest) sk := by rw [← brec_text_append]; exact hs
+    obtain ⟨l', sk', hh⟩ := readInstance_brec ops lex cfg d strict st (brecOf i) hl l rest sk hs' _ hfind rfl rfl
+      { name := (brecOf i).name, vals := match d.entity? (brecOf i).name with | some e => defaults e.attrs | none => [] } rfl e hent'
+      .null [] .null
+      (by
+        intro L
+        refine ⟨sk, ?_⟩
+        rw [hattrs, hbody]
+        have := C01_read_empty_record { ops := ops, lex := lex, cfg := cfg, dict := d, lookup := Mgr.lookup d st.mgr }
+          strict [] sepsNil L ((brecOf i).t4 rest) sk
+        simpa using this)
+      (by
+        have : decide (Sev.null.toInt ≤ Sev.warning.toInt) = false := by decide
+        rw [this, Bool.and_false])
+    refine ⟨l', sk', ?_⟩
+    rw [hh]
+    simp [x, AnyRecE.item, stateOf]
+
 /-! ### the two halves composed, and their hypotheses on a concrete file -/
 
 /-- **the token the writer emits for a stored value denotes that value** (`storable_covered`, exported): for every stored
@@ -2032,6 +2221,40 @@ theorem C01_read_items_witness :
           (by decide) _ _ hA
       · exact hC.2)
   exact ⟨res, h, hi, hs, hc, hv⟩
+
+/-! #### … and of the read ∘ write principle with an instance without values: the manager `{#1 : E, #2 : A(5)}` -/
+def weInstE : MInst Nat := { id := 1, parts := [{ name := "E", vals := [] }] }
+def weInstA : MInst Nat := { id := 2, parts := [{ name := "A", vals := [.one (.atom (.int 5))] }] }
+def weMgr : Mgr Nat := { insts := [weInstE, weInstA] }
+def weIt (i : MInst Nat) : Item Nat :=
+  if i.id == 1 then (AnyRecE.empty (F := Nat) (brecOf i) [10]).item eDict
+  else (AnyRec.simple (recOf dblOps Generated.rwCfg eDict i)).item eDict
+
+/-- what `STEPfile::WriteData` emits for it, `#1=E();⏎#2=A(5);⏎`, is read back to the same two instances, and written again
+    to the same bytes -/
+theorem C01_file_write_read_items_witness :
+    ∃ res, readDataSection dblOps Generated.rwLexCfg Generated.rwCfg eDict false false
+        (10 :: (weMgr.insts.flatMap (writeInst dblOps Generated.rwCfg eDict) ++ (stringToBytes "ENDSEC;\n" ++ (endIso ++ [59, 10])))) = .ok res ∧
+      res.sev = .null ∧ res.mgr.insts = weMgr.insts.map (fun i => { i with state := .complete }) ∧
+      res.mgr.insts.flatMap (writeInst dblOps Generated.rwCfg eDict) = weMgr.insts.flatMap (writeInst dblOps Generated.rwCfg eDict) := by
+  have hE := emptyInst_item dblOps Generated.rwLexCfg Generated.rwCfg eDict false (by decide) (Mgr.lookup eDict weMgr) weInstE
+    ⟨by decide, by decide, rfl, { name := "E", vals := [] }, { name := "E", attrs := [], ancestors := ["E"] }, rfl, rfl, by decide, rfl, rfl,
+      ⟨69, [], by decide, by decide, by decide, by decide⟩⟩
+  have hA := storableInst_item dblOps Generated.rwLexCfg Generated.rwCfg eDict false (by decide) (by decide) (by decide) (by decide)
+    (by decide) (by decide) (Mgr.lookup eDict weMgr) weInstA
+    ⟨by decide, by decide, rfl, { name := "A", vals := [.one (.atom (.int 5))] }, { name := "A", attrs := [wAttrI], ancestors := ["A"] },
+      rfl, by decide, rfl, ⟨65, [], by decide, by decide, by decide, by decide⟩,
+      StorableRec.one wAttrI _ (Storable.int wAttrI rfl rfl rfl 5 (by decide) (by decide))⟩
+  obtain ⟨res, hr, hs, _, hi, hw⟩ := C01_file_write_read_items_partial dblOps Generated.rwLexCfg Generated.rwCfg eDict false (by decide)
+    weMgr (by decide) weIt
+    (by intro i hi; simp only [weMgr, List.mem_cons, List.not_mem_nil, or_false] at hi; rcases hi with rfl | rfl; exact hE.1; exact hA.1)
+    (by intro i hi; simp only [weMgr, List.mem_cons, List.not_mem_nil, or_false] at hi; rcases hi with rfl | rfl; exact hE.2.1; exact hA.2.1)
+    (by intro i hi; simp only [weMgr, List.mem_cons, List.not_mem_nil, or_false] at hi; rcases hi with rfl | rfl; exact hE.2.2.1; exact hA.2.2.1)
+    (by intro i hi; simp only [weMgr, List.mem_cons, List.not_mem_nil, or_false] at hi; rcases hi with rfl | rfl; exact hE.2.2.2.1; exact hA.2.2.2.1)
+    (by intro i hi; simp only [weMgr, List.mem_cons, List.not_mem_nil, or_false] at hi; rcases hi with rfl | rfl; exact hE.2.2.2.2.1; exact hA.2.2.2.2.1)
+    (by intro i hi; simp only [weMgr, List.mem_cons, List.not_mem_nil, or_false] at hi; rcases hi with rfl | rfl; exact hE.2.2.2.2.2.1; exact hA.2.2.2.2.2.1)
+    (by intro i hi; simp only [weMgr, List.mem_cons, List.not_mem_nil, or_false] at hi; rcases hi with rfl | rfl; exact hE.2.2.2.2.2.2; exact hA.2.2.2.2.2.2)
+  exact ⟨res, hr, hs, hi, hw⟩
 
 def exDict : Dict :=
   { entities := [{ name := "A", attrs := [{ name := "i", ty := .one .integer, optional := false },
